@@ -36,11 +36,12 @@ def resolve_snippets(abbr: Abbreviation, config: Config):
         # It can be either a user error or a perfectly valid snippet like
         # "img": "img[src alt]/", e.g. an element with predefined shape.
         # In any case, simply stop parsing and keep element as is
-        if not snippet or snippet in stack:
+        # NB: check names, not definitions: two snippets may have the same definition
+        if not snippet or child.name in stack:
             return None
 
         snippet_abbr = parse(snippet, parser_options(config))
-        stack.append(snippet)
+        stack.append(child.name)
         walk_resolve(snippet_abbr, resolve, config)
         stack.pop()
 
